@@ -77,7 +77,7 @@ PROPS = {
         "kind": "c12,std",
         "module": "Props.C12",
         "namespace": "Jl.C12",
-        "extra_theorem_files": [("Proofs.IntText", "Jl.IntText")],
+        "extra_theorem_files": [("Proofs.IntText", "Jl.IntText"), ("Proofs.LineFloats", "Jl.LineFloats")],
         "rule": ("ToString(v)/ToNumber(v) followed by cast.To(type of v, rendering) for every int8/uint8, every 257th (thorough: every) "
                  "int16/uint16, boundaries of all ten integer types, every float64 and float32 binade boundary and its neighbours, "
                  "subnormals, extremes, shortest-representation corner cases, non-finite values, random bit patterns, booleans. Judged "
@@ -92,7 +92,7 @@ PROPS = {
         "jl": True,
         "module": "Props.C01",
         "namespace": "Jl.C01",
-        "extra_theorem_files": [("Proofs.JsonQuote", "Jl.JsonQuote"), ("Proofs.JsonPrint", "Jl.JsonPrint")],
+        "extra_theorem_files": [("Proofs.JsonQuote", "Jl.JsonQuote"), ("Proofs.JsonPrint", "Jl.JsonPrint"), ("Proofs.ExportText", "Jl.ExportText")],
         "rule": ("one input line through importer (template ti) and exporter (template to) as jl does, and Go values handed to Export "
                  "through the API (maps, slices, rows): random templates (0-5 columns, 9 formats x 18 raw types, hidden anywhere, "
                  "sub-rows to depth 3) with keys from every class the writer treats differently (controls, quotes, backslash, DEL, C1, "
